@@ -27,6 +27,18 @@ def spaces():
   out['flat'] = (flat, {'f': ('float', [0.0, 0.5, 1.0], None), 'i': ('num', [0, 2], None), 'di': ('int', [1, 2], None), 'df': ('float', [0.5, 1.0], None),
                         'dn': ('float', [1, 2], None), 'c': ('str', ['a', 'b'], None), 'b': ('bool', ['True', 'False'], None)})
 
+  # ---- a "sibling" of the flat space: the same parameter names with other kinds / domains (two studies of one client process)
+  def flat_sibling(root):
+    root.add_int_param('f', 0, 2)
+    root.add_float_param('i', 0.0, 2.0)
+    root.add_discrete_param('di', [0.5, 1.0])
+    root.add_discrete_param('df', [1, 2])
+    root.add_discrete_param('dn', [1, 2])
+    root.add_bool_param('c')
+    root.add_categorical_param('b', ['True', 'False', 'maybe'])
+  out['flat-sibling'] = (flat_sibling, {'f': ('num', [0, 2], None), 'i': ('float', [0.0, 2.0], None), 'di': ('float', [0.5, 1.0], None), 'df': ('int', [1, 2], None),
+                                        'dn': ('int', [1, 2], None), 'c': ('bool', ['True', 'False'], None), 'b': ('str', ['True', 'False', 'maybe'], None)})
+
   # ---- indexed names, created in shuffled order, and a sparse one
   def indexed(root):
     for i in (2, 0, 1):
@@ -176,6 +188,14 @@ def compare(want, got):
 
 
 def shard(task):
+  if 'spaces' in task:      # several spaces in one process, in the given order
+    tot = {'n': 0, 'nontrivial': 0, 'violations': []}
+    for sp in task['spaces']:
+      r = shard({'space': sp, 'backends': task['backends']})
+      tot['n'] += r['n']
+      tot['nontrivial'] += r['nontrivial']
+      tot['violations'] += r['violations']
+    return tot
   from vfw import svc
   from vizier import pyvizier as vz
   from vizier.service import pyvizier as svz
@@ -250,6 +270,7 @@ def shard(task):
 
 def run(ctx):
   tasks = [{'space': s, 'backends': ['ram'] if ctx.quick and i % 3 else ['ram', 'sqlmem']} for i, s in enumerate(spaces())]
+  tasks.append({'spaces': ['flat', 'flat-sibling', 'flat'], 'backends': ['ram']})     # siblings met by one process, in both orders
   tot = nontriv = 0
   for r in ctx.pmap('shard', tasks):
     tot += r['n']
